@@ -2,3 +2,6 @@ import KodaModel.Value
 import KodaModel.Pred
 import KodaModel.Validator
 import KodaModel.Eval
+import KodaModel.Lemmas.Mono
+import KodaModel.Properties.C05
+import KodaModel.Properties.C03
